@@ -17,6 +17,7 @@ import (
 	"github.com/libp2p/go-libp2p/p2p/protocol/autonatv2"
 	"github.com/libp2p/go-libp2p/p2p/protocol/autonatv2/pb"
 	"github.com/libp2p/go-msgio/pbio"
+	ma "github.com/multiformats/go-multiaddr"
 	"google.golang.org/protobuf/proto"
 
 	"verifsim/simhost"
@@ -37,9 +38,16 @@ type entry struct {
 	raw    []byte
 	desc   string
 	ip     string // canonical IP of the entry ("" = none)
-	ipport string // simnet dial key ("" = cannot be dialled over TCP)
+	ipport string // endpoint a dial of this entry would go to: "ip:port" for TCP (simnet's dial key), "udp/ip:port" for QUIC / WebTransport; "" = none
 	cls    int
+	lazy   int // WebTransport addresses carry certhashes that exist only once the nodes run: resolved when the request is sent
 }
+
+const (
+	lazyNone     = iota
+	lazyOwnWT    // the client's own WebTransport address (at the IP S observes) with its current certhashes
+	lazyVictimWT // the victim's WebTransport address with its current certhashes
+)
 
 // ---- plans ---------------------------------------------------------------------------------
 
@@ -193,11 +201,14 @@ type dbEvent struct {
 }
 
 type client struct {
-	idx   int
-	ip    string
-	port  int
-	altIP string
-	node  *simhost.Node
+	idx     int
+	ip      string // the node's IP (private when behind the NAT)
+	port    int
+	altIP   string // second listener on another public IP ("" = none)
+	obsIP   string // the IP S observes on the client's connections (= ip unless behind the NAT)
+	nat     bool
+	viaQUIC bool // the client's connection to S is a QUIC connection
+	node    *simhost.Node
 
 	announceVictim bool
 }
@@ -270,6 +281,48 @@ func classifyReadErr(err error) string {
 	return "read-error"
 }
 
+// resolveLazy fills in a WebTransport entry: the listen address of the node as its swarm advertises it now (with the
+// current certhashes), moved to the IP/port under which the request names it. A node without a WebTransport listener
+// gets a made-up certhash (the address is then still a well-formed WebTransport address of that endpoint).
+func (w *world) resolveLazy(c *client, e *entry) {
+	node, ip, port := c.node, c.obsIP, c.port
+	if e.lazy == lazyVictimWT {
+		node, ip, port = w.V, ipV, 4001
+	}
+	base := fmt.Sprintf("/ip4/%s/udp/%d/quic-v1", ip, port)
+	a := ma.StringCast(base + "/webtransport/certhash/" + fakeCerthash)
+	if wt := node.WTAddr(); wt != nil {
+		_, tail := ma.SplitFunc(wt, func(c ma.Component) bool { return c.Protocol().Code == ma.P_WEBTRANSPORT })
+		if tail != nil {
+			a = ma.StringCast(base).Encapsulate(tail)
+		}
+	}
+	e.raw, e.lazy = a.Bytes(), lazyNone
+}
+
+// endpointKey: "ip:port" for TCP addresses, "udp/ip:port" for anything over UDP, "" otherwise.
+func endpointKey(a ma.Multiaddr) string {
+	if a == nil {
+		return ""
+	}
+	ip, err := a.ValueForProtocol(ma.P_IP4)
+	if err != nil {
+		if ip, err = a.ValueForProtocol(ma.P_IP6); err != nil {
+			return ""
+		}
+	}
+	var port int
+	if v, err := a.ValueForProtocol(ma.P_TCP); err == nil {
+		fmt.Sscan(v, &port)
+		return key(ip, port)
+	}
+	if v, err := a.ValueForProtocol(ma.P_UDP); err == nil {
+		fmt.Sscan(v, &port)
+		return "udp/" + key(ip, port)
+	}
+	return ""
+}
+
 // ---- the request --------------------------------------------------------------------------------
 
 const clientDeadline = 45 * time.Second
@@ -290,8 +343,11 @@ func (w *world) doRequest(r *reqRec) {
 	r.stream = s
 
 	addrs := make([][]byte, len(r.plan.entries))
-	for i, e := range r.plan.entries {
-		addrs[i] = e.raw
+	for i := range r.plan.entries {
+		if r.plan.entries[i].lazy != lazyNone {
+			w.resolveLazy(c, &r.plan.entries[i])
+		}
+		addrs[i] = r.plan.entries[i].raw
 	}
 	req := frame(mustMarshal(&pb.Message{Msg: &pb.Message_DialRequest{DialRequest: &pb.DialRequest{Addrs: addrs, Nonce: r.nonce}}}))
 	r.sentStamp = simrt.Stamp()
@@ -508,9 +564,7 @@ func (w *world) sendDialData(r *reqRec, s network.Stream) bool {
 func (w *world) dialBackHandler(ci int) network.StreamHandler {
 	return func(s network.Stream) {
 		ev := dbEvent{client: ci, at: simrt.Now(), remotePeer: s.Conn().RemotePeer().ShortString(), remoteIsD: s.Conn().RemotePeer() == w.D.ID}
-		if ta, err := maToKey(s.Conn().LocalMultiaddr()); err == nil {
-			ev.local = ta
-		}
+		ev.local = endpointKey(s.Conn().LocalMultiaddr())
 		s.SetDeadline(time.Now().Add(10 * time.Second))
 		var m pb.DialBack
 		if err := pbio.NewDelimitedReader(s, 1024).ReadMsg(&m); err != nil {
